@@ -1,11 +1,12 @@
 """C10 - call_out fires exactly once, on time, and can be cancelled."""
 import os
+import re
 
 from nvlib import engine as E
 from nvlib.check import Prop
 
 BIG = 4294967296
-DELAYS = [(2147483647, 1), (2147483648, 1), (BIG - 1, 1), (BIG + 5, 1), (3 * BIG + 37, 1),
+DELAYS = [(1099511627779, 1), (2147483647, 1), (2147483648, 1), (BIG - 1, 1), (BIG + 5, 1), (3 * BIG + 37, 1),
           (-5, 1), (0, 2), (1, 8), (2, 6), (3, 4), (5, 3), (7, 2), (30, 2), (31, 4), (32, 8), (33, 4), (34, 1),
           (63, 2), (64, 5), (65, 2), (96, 2), (100, 1), (1000, 1)]
 ADV = [(0, 2), (1, 10), (2, 5), (3, 3), (5, 2), (31, 2), (32, 3), (33, 2), (64, 2), (70, 1), (200, 1)]
@@ -38,6 +39,9 @@ class C10(Prop):
                 "NV.C10.tie_headDec",
                 "NV.C10.tie_headDue_dec",
                 "NV.C10.tie_chunkPos",
+                "NV.C10.tie_byNameCond",
+                "NV.C10.tie_removeAllCond",
+                "NV.C10.removeAll_eq_spec",
                 "NV.C10.tie_dropCond",
                 "NV.C10.tie_infoSkip",
                 "NV.C10.tie_infoCount",
@@ -129,10 +133,12 @@ class C10(Prop):
                 "NV.C10.deltas_ok",
                 "NV.C10.handles_fit_int",
                 "NV.C10.handleC_exact",
-                "NV.C10.handleC_overflow_witness",
-                "NV.C10.C10_handles_Full_false",
                 "NV.C10.handleC_collision_witness",
+                "NV.C10.cutAtOverflow_id",
+                "NV.C10.model_satisfies_spec_int",
                 "NV.C10.time_left_fits_int"]
+    witness_theorems = ["NV.C10.ovf_witness", "NV.C10.C10_int_Full_false", "NV.C10.handleC_overflow_witness",
+                        "NV.C10.C10_handles_Full_false"]
     consts = [("calloutCycleSize", "CALLOUT_CYCLE_SIZE")]
     const_headers = ["lib/efuns/options.h"]
     quick_n = 300
@@ -143,18 +149,20 @@ class C10(Prop):
                  "histories) + expressions regenerated from the clang AST with bridging lemmas + model/implementation correspondence")
     level_text = ("Lean 4 theorems about an executable model of lib/efuns/call_out.c (wheel arithmetic, delta-encoded "
                   "ordered insert, sweep, remove/find/time_left) for all delays, tick spacings and callback scripts; the "
-                  "model is tied to the source by ~30 expressions regenerated from the clang AST on every run (slot, rotation, "
-                  "handle, time_left, sweep order, insert comparison and delta updates, unlink update, head decrement, (int) "
-                  "casts, CHUNK_SIZE) each with a bridging lemma, and by running the real call_out code and the model on the "
+                  "model is tied to the source by ~35 expressions regenerated from the clang AST on every run (slot, rotation, "
+                  "handle, time_left, sweep order, insert comparison and delta updates, unlink update and its statement order, "
+                  "head decrement, owner tests of call_out()/get_all_call_outs/remove_all_call_out/by-name match, (int) casts, "
+                  "CHUNK_SIZE) each with a bridging lemma, and by running the real call_out code and the model on the "
                   "same generated histories; the Lean specification oracle (firing, answers, call_out_info, this_player, "
                   "print_call_out_usage bookkeeping) judges every implementation trace")
     level_note = ("trusted: Lean kernel; extract.py / props/c10_extract.py (clang AST -> NV/Gen/C10.lean); the correspondence "
                   "harness (differential, only the generated histories); callbacks are oracle scripts.  Top theorem "
                   "NV.C10.model_satisfies_spec, no hypotheses: the oracle (all clauses, incl. the print_call_out_usage / "
                   "num_call / free-list clause) accepts every history of the model, for all scripts and commands.  C int width: "
-                  "time left modelled ((int) cast regenerated), handles proved exact below 2^31/N call_outs "
-                  "(NV.C10.handleC_exact) with a Lean-checked witness above (NV.C10.C10_handles_Full_false, not replayed on the "
-                  "driver).  Observed only (checked by the LPC callback, no model): call_outs with 4 arguments incl. an object "
+                  "time left modelled ((int) cast regenerated); handles: the history with int handles (eventsC, what the model "
+                  "driver prints) is accepted under the decidable side condition handlesFit (NV.C10.model_satisfies_spec_int), "
+                  "the unconditional statement is refuted by a Lean-checked witness (NV.C10.C10_int_Full_false) that is replayed "
+                  "on the real driver through the verif hook verif_call_out_set_unique (open known finding C10-handle-overflow).  Observed only (checked by the LPC callback, no model): call_outs with 4 arguments incl. an object "
                   "that is destructed meanwhile; f_call_out refusing a destructed current_object")
     rule = ("cases = corpus + known-finding inputs + boundary list + seeded random histories of "
             "call_out (string and function pointer, with and without this_player)/remove/find (by name and handle)/"
@@ -163,21 +171,34 @@ class C10(Prop):
             "0..200 incl. backlog; the branch histogram of the run is in coverage.histogram; a case is "
             "non-trivial when its trace has >= 2 lines; distinct = distinct canonical implementation trace")
     not_covered = ["the O_LISTENER branch of call_out() (the flag is never set in this driver: dead code)",
-                   "int overflow of the handle after 2^26 call_outs (undefined behaviour): bound + Lean witness only, no replay "
-                   "on the driver (would need a hook that sets `unique`)",
+                   "int overflow of the handle after 2^26 call_outs: OPEN known finding C10-handle-overflow (not repaired); the "
+                   "link from `unique < 2^31/N - 1` to the side condition handlesFit is not proved (handleC_exact is per handle)",
+                   "call_out during shutdown, call_out by the master object (no separate path in call_out.c)",
                    "argument vectors: one string argument in the model; 4-argument call_outs (string, object, number) are "
                    "checked by the LPC callback only (observed, no theorem); refcounts of arguments are not observable",
                    "f_call_out by a destructed current_object: probed by the harness (destco), the model has the branch but the "
                    "probe is outside the model",
                    "the static `cop` cleanup at the entry of call_out() (unreachable: every error is caught inside the loop), "
                    "current_interactive = 0, eval_cost across the callbacks of one sweep, shutdown's remove_all_call_out",
-                   "hand-copied predicates: byName, remove_all_call_out's owner test, allocCall's free-list test "
-                   "(correspondence only)",
+                   "hand-copied: allocCall's free-list test (`!call_list_free` as wheelSize + busy = numCall), the scan order of "
+                   "the by-name loops (correspondence only)",
                    "see notes/C10-coverage.md for the full map"]
 
     def gen_extra(self, ctx, bdir):
         from props import c10_extract
         return c10_extract.extract(bdir)
+
+    def func_at(self, lineno):
+        """name of the function of lib/efuns/call_out.c that contains the given line ("?" if none)"""
+        try:
+            src = open(os.path.join(E.REPO, "lib/efuns/call_out.c"), encoding="latin-1").read().split("\n")
+        except OSError:
+            return "?"
+        for i in range(min(lineno, len(src)) - 1, -1, -1):
+            m = re.match(r"(?:[A-Za-z_][\w \t\*]*?[ \t\*])?([A-Za-z_]\w*)[ \t]*\([^;]*$", src[i])
+            if m and not src[i][0].isspace() and m.group(1) not in ("if", "while", "for", "switch", "return", "sizeof"):
+                return m.group(1)
+        return "?"
 
     def canon(self, lines):
         out = []
@@ -188,6 +209,14 @@ class C10(Prop):
             # call_function_pointer's message names the clone ("/c10/obj#3"): reduced to a stable text
             if l.startswith("err *Owner (") and "of function pointer is destructed" in l:
                 l = "err *fp-owner-destructed"
+            # UBSan report of int arithmetic in call_out.c: path, line and column replaced by the enclosing function
+            m = re.match(r"sanitizer .*call_out\.c:(\d+):\d+: runtime error: (signed integer overflow: .*)$", l)
+            if m:
+                l = "sanitizer call_out.c(%s): %s" % (self.func_at(int(m.group(1))), m.group(2))
+            # the order in which UBSan names the two factors is the compiler's choice: smaller one first
+            m = re.match(r"(sanitizer call_out\.c\(\w+\): signed integer overflow: )(\d+) \* (\d+)( cannot .*)$", l)
+            if m and int(m.group(2)) > int(m.group(3)):
+                l = m.group(1) + m.group(3) + " * " + m.group(2) + m.group(4)
             out.append(l)
         return out
 
@@ -199,8 +228,61 @@ class C10(Prop):
         return E.run_harness(self.exe, self.conf, cases, ctx.rundir)
 
     # ---- generators ------------------------------------------------------
+    def wheel(self):
+        """the regenerated CALLOUT_CYCLE_SIZE (cases that aim at the end of the int range are stated relative to it)"""
+        try:
+            m = re.search(r"def calloutCycleSize : \w+ := (\d+)", open(os.path.join(E.LEAN, "NV/Gen/C10.lean")).read())
+            return int(m.group(1))
+        except Exception:
+            return 32
+
+    CHURN = ["rmh", "rmh2", "rmn", "rmall", "reload", "fire", "errfire", "fpfire", "deaddrop", "deadfp", "rmall-dead"]
+
+    def churn(self, kind, n):
+        """the same way of ending a call_out `n` times with at most three ever in use: a structure that is not given
+        back to the free list on that path shows up as a second chunk in the final usage line (oracle: usage-allocated)"""
+        L = []
+        nobj = 2
+        for i in range(n):
+            t = "c%d" % i
+            if kind == "rmh":
+                L += ["vapply o1 do_op co,0,50,%s" % t, "vapply o1 do_op rmh,%s" % t]
+            elif kind == "rmh2":
+                L += ["vapply o1 do_op co,0,50,%s" % t, "vapply o1 do_op cofp,1,82,%sb" % t, "vapply o1 do_op rmh,%s" % t,
+                      "vapply o1 do_op rmh,%sb" % t]
+            elif kind == "rmn":
+                L += ["vapply o1 do_op co,1,50,%s" % t, "vapply o1 do_op coa,2,18,A%s" % t, "vapply o1 do_op rmn,1", "vapply o1 do_op rmn,2"]
+            elif kind == "rmall":
+                L += ["vapply o1 do_op co,0,50,%s" % t, "vapply o1 do_op cofp,1,50,%sb" % t, "vapply o1 do_op rmall"]
+            elif kind == "reload":
+                L += ["vapply o1 do_op coa,0,50,A%s" % t, "vapply o1 do_op cofpb,1,7,%sb" % t, "vapply o1 do_op reload"]
+            elif kind == "fire":
+                L += ["gop o2 o1 coa,0,1,A%s" % t, "adv 1", "sweep"]
+            elif kind == "errfire":
+                L += ["vapply o1 set_script co:%s err" % t, "vapply o1 do_op co,0,1,%s" % t, "adv 1", "sweep"]
+            elif kind == "fpfire":
+                L += ["vapply o1 do_op cofpb,0,1,%s" % t, "adv 1", "sweep"]
+            elif kind in ("deaddrop", "deadfp", "rmall-dead"):
+                nobj += 1
+                op = {"deaddrop": "coa,0,1,A%s", "deadfp": "cofp,0,1,%s", "rmall-dead": "co,0,9,%s"}[kind] % t
+                L += ["gop o2 o%d %s" % (nobj, op), "vapply o1 do_op dest,o%d" % nobj]
+                L += ["vapply o1 do_op rmall"] if kind == "rmall-dead" else ["adv 1", "sweep"]
+            if i % 8 == 7:
+                L.append("vapply o1 do_op usage")
+        L += ["vapply o1 do_op usage", "vapply o1 do_op info"]
+        return nobj, L
+
+    def chunk(self):
+        """the regenerated CHUNK_SIZE"""
+        try:
+            m = re.search(r"def chunkSize : \w+ := (\d+)", open(os.path.join(E.LEAN, "NV/Gen/C10.lean")).read())
+            return int(m.group(1))
+        except Exception:
+            return 20
+
     def boundary(self):
         B = []
+        last = 2 ** 31 // self.wheel() - 1          # the largest serial whose handle is still an int
 
         def mk(name, lines, nobj=2):
             head = ["clone o%d /c10/obj" % i for i in range(1, nobj + 1)]
@@ -291,9 +373,22 @@ class C10(Prop):
                     "vapply o1 do_op reload", "adv 1", "sweep"], nobj=3)
         mk("call_out-by-destructed", ["vapply o1 do_op co,0,2,a", "vapply o1 do_op destco,o1", "vapply o2 set_script co:b destco,o2",
                                       "vapply o2 do_op co,1,1,b", "adv 1", "sweep", "adv 1", "sweep"])
+        # handles right below the end of the int range (the call_out after these is the open known finding)
+        mk("handle-last-int", ["setuniq %d" % (last - 2), "vapply o1 do_op co,0,5,a", "vapply o1 do_op cofp,1,37,b", "vapply o1 do_op fh,a",
+                               "vapply o1 do_op fh,b", "vapply o1 do_op rmh,a", "vapply o1 do_op info", "setuniq 5", "adv 37", "sweep"])
+        mk("fp-bound-arg", ["vapply o1 do_op cofpb,2,3,a", "vapply o1 do_op co,2,3,b", "vapply o1 do_op fn,2", "vapply o1 do_op info",
+                            "vapply o1 do_op rmn,2", "vapply o1 do_op fh,a", "vapply o2 do_op cofpb,1,3,c", "vapply o1 do_op dest,o2",
+                            "vapply o1 do_op cofpb,0,40,d", "vapply o1 do_op reload", "adv 3", "sweep"])
+        mk("huge-delay", ["vapply o1 do_op co,0,1099511627779,a", "vapply o1 do_op cofp,1,1099511627811,b", "vapply o1 do_op fh,a",
+                          "vapply o1 do_op fn,0", "vapply o1 do_op info", "adv 3", "sweep", "vapply o1 do_op fh,b",
+                          "vapply o1 do_op rmh,b", "vapply o1 do_op rmn,0"])
         mk("reschedule-chain", ["vapply o1 set_script co:a co,0,1,b", "vapply o1 set_script co:b co,0,32,c",
                                 "vapply o1 set_script co:c co,0,31,d", "vapply o1 do_op co,0,1,a", "adv 1", "sweep",
                                 "adv 1", "sweep", "adv 32", "sweep", "adv 31", "sweep"])
+        # every way a call_out can end, repeated more often than a chunk has structures (leak detection per path)
+        for kind in self.CHURN:
+            nobj, lines = self.churn(kind, self.chunk() + 6)
+            mk("churn-" + kind, lines, nobj=nobj)
         return B
 
     def gen_ops(self, rng, st, self_obj, depth, n):
@@ -309,6 +404,8 @@ class C10(Prop):
                     # four arguments instead of one (checked by the LPC callback itself)
                     k = "coa" if k == "co" else "coafp"
                     tag = "A%d" % st["tag"]
+                elif k == "cofp" and rng.chance(1, 3):
+                    k = "cofpb"                               # function pointer with a bound argument
                 st["tags"].setdefault(self_obj, []).append(tag)
                 d = rng.weighted(DELAYS)
                 f = rng.below(4)
@@ -358,15 +455,27 @@ class C10(Prop):
                 body.append("sweep")
         body += ["adv 40", "sweep"]
         head = ["clone o%d /c10/obj" % i for i in range(1, nobj + 1)]
+        if rng.chance(1, 4):
+            # large handle serials (verif hook); the last one leaves room for a few hundred call_outs below 2^31 / 32
+            top = 2 ** 31 // self.wheel() - 1
+            head.append("setuniq %d" % rng.choice([1000, top // 64, top // 2, top - 800]))
         return E.Case(cid, head + body, {"origin": "generated"})
 
     def generate(self, rng, n, tier):
-        return [self.gen_case(rng, "g%d" % i) for i in range(n)]
+        cases = []
+        for i in range(n):
+            if rng.chance(1, 15):
+                nobj, lines = self.churn(rng.choice(self.CHURN), self.chunk() + rng.range(2, 25))
+                head = ["clone o%d /c10/obj" % k for k in range(1, nobj + 1)]
+                cases.append(E.Case("g%d" % i, head + lines, {"origin": "generated-churn"}))
+            else:
+                cases.append(self.gen_case(rng, "g%d" % i))
+        return cases
 
     def histogram(self, cases, impl):
         """branch histogram of a run (generator audit): which mechanisms of call_out.c the cases reached"""
         keys = ["co", "cofp", "co_by_destructed", "co_with_player", "co_with_4_args", "destco_refusal_probes", "delay_lt1", "delay_lt_wheel", "delay_eq_wheel",
-                "delay_gt_wheel", "delay_ge_2^31", "fires", "fires_with_player", "fp_owner_destructed",
+                "delay_gt_wheel", "delay_ge_2^31", "setuniq", "fp_bound_arg", "fires", "fires_with_player", "fp_owner_destructed",
                 "rmh_hit", "rmh_miss", "rmn_hit", "rmn_miss", "fh_hit", "fh_miss", "fn_hit", "fn_miss",
                 "answer_negative_overdue", "answer_int_converted", "rmall", "reload", "usage", "usage_second_chunk",
                 "info", "info_rows", "info_fp_rows", "dest", "errors", "ticks", "ticks_spacing0", "ticks_backlog",
@@ -375,6 +484,8 @@ class C10(Prop):
         h = dict((k, 0) for k in keys)
         for c in cases:
             h["gop"] += sum(1 for l in c.lines if l.startswith("gop "))
+            h["setuniq"] += sum(1 for l in c.lines if l.startswith("setuniq "))
+            h["fp_bound_arg"] += sum(l.count("cofpb,") for l in c.lines)
             h["destco_refusal_probes"] += sum(l.count("destco,") for l in c.lines)
             last_tick = None
             in_cb = False
